@@ -50,13 +50,16 @@ func extractNumberDFA(c *Ctx, u *Universe) *numDFA {
 	info := p.TypesInfo
 	d := &numDFA{states: localIntConsts(info, fd), delta: map[int64]map[rune]int64{}}
 	d.names = invert(d.states)
-	body, loop := findMachineLoop(fd)
-	rs, _ := loop.(*ast.RangeStmt)
-	if body == nil || rs == nil {
-		d.problem = "main loop (range over the characters) not found"
+	_, loop := findMachineLoop(fd)
+	var body *ast.BlockStmt
+	var chObj types.Object
+	if loop != nil {
+		body, chObj = elementLoop(info, loop)
+	}
+	if body == nil {
+		d.problem = "main loop (over the characters, one by one) not found"
 		return d
 	}
-	chObj := identObj(info, rs.Value)
 	// roles, not names: the state variable is the local that is only ever assigned local constants, the
 	// consumed-characters counter is the local the loop body increments
 	var stateObj, parsedObj types.Object
